@@ -94,6 +94,7 @@ func c16Groups(tier string) []core.Group {
 	}
 	gs = append(gs, core.Group{Key: "product/Trace", Run: c09Trace})
 	gs = append(gs, core.Group{Key: "reuse-then-use", Run: c16ReuseThenUse})
+	gs = append(gs, core.Group{Key: "other-operations", Run: c16OtherOps})
 	// assembling
 	for _, op := range []string{"Concat", "Stack", "Repeat"} {
 		for _, t := range []reflect.Type{model.TInt8, model.TF64, model.TStr} {
@@ -266,6 +267,163 @@ func c16ReuseThenUse(c *core.Ctx) {
 						if c.WantSample("reuse-then-use") {
 							c.Sample("reuse-then-use", desc)
 						}
+					}
+				}
+			}
+		}
+	}
+	c.Control(true)
+}
+
+// c16OtherOps: the operations outside the matrices of C01-C14 (Diag, SoftMax/LogSoftMax, ByIndices, Norm, RepeatReuse into a
+// column-major destination, Narrow, Eq of logically equal tensors is NOT among them: Eq compares storage by definition).
+// No model is needed: the result on the column-major operand must read as the result on the row-major operand with the same
+// contents, or the call must be refused.
+func c16OtherOps(c *core.Ctx) {
+	type op struct {
+		name string
+		ok   func(shape []int) bool
+		run  func(d *tensor.Dense) (tensor.Tensor, error)
+		run2 func(d, e *tensor.Dense) (tensor.Tensor, error) // operations on two operands of one layout
+	}
+	idx := func() *tensor.Dense { return tensor.New(tensor.WithShape(2), tensor.WithBacking([]int{1, 0})) }
+	ops := []op{
+		{name: "Diag", ok: func(s []int) bool { return len(s) == 2 }, run: func(d *tensor.Dense) (tensor.Tensor, error) { return tensor.Diag(d) }},
+		{name: "SoftMax(0)", ok: func(s []int) bool { return len(s) >= 2 }, run: func(d *tensor.Dense) (tensor.Tensor, error) { return tensor.SoftMax(d, 0) }},
+		{name: "SoftMax(last)", ok: func(s []int) bool { return len(s) >= 2 }, run: func(d *tensor.Dense) (tensor.Tensor, error) { return tensor.SoftMax(d, d.Dims()-1) }},
+		{name: "LogSoftMax(1)", ok: func(s []int) bool { return len(s) >= 2 }, run: func(d *tensor.Dense) (tensor.Tensor, error) { return tensor.LogSoftMax(d, 1) }},
+		{name: "ByIndices(0)", ok: func(s []int) bool { return len(s) >= 2 }, run: func(d *tensor.Dense) (tensor.Tensor, error) { return tensor.ByIndices(d, idx(), 0) }},
+		{name: "ByIndices(1)", ok: func(s []int) bool { return len(s) >= 2 }, run: func(d *tensor.Dense) (tensor.Tensor, error) { return tensor.ByIndices(d, idx(), 1) }},
+		{name: "Norm(2)", ok: func(s []int) bool { return len(s) == 2 }, run: func(d *tensor.Dense) (tensor.Tensor, error) { return d.Norm(tensor.Norm(2)) }},
+		{name: "Norm(1,axis0)", ok: func(s []int) bool { return len(s) >= 2 }, run: func(d *tensor.Dense) (tensor.Tensor, error) { return d.Norm(tensor.Norm(1), 0) }},
+		{name: "Norm(fro)", ok: func(s []int) bool { return len(s) == 2 }, run: func(d *tensor.Dense) (tensor.Tensor, error) { return d.Norm(tensor.FrobeniusNorm()) }},
+		{name: "Narrow", ok: func(s []int) bool { return len(s) >= 2 }, run: func(d *tensor.Dense) (tensor.Tensor, error) { return tensor.Narrow(d, 1, 1, 2) }},
+		{name: "RepeatReuse(dest F)", ok: func(s []int) bool { return len(s) == 2 }, run: func(d *tensor.Dense) (tensor.Tensor, error) {
+			sh := d.Shape().Clone()
+			sh[0] *= 2
+			r := tensor.New(tensor.Of(d.Dtype()), tensor.WithShape(sh...), tensor.AsFortran(nil))
+			return tensor.RepeatReuse(d, r, 0, 2)
+		}},
+		{name: "SoftMaxB(0)", ok: func(s []int) bool { return len(s) >= 2 }, run2: func(d, e *tensor.Dense) (tensor.Tensor, error) { return tensor.SoftMaxB(d, e, 0) }},
+		{name: "SoftMaxB(last)", ok: func(s []int) bool { return len(s) >= 2 }, run2: func(d, e *tensor.Dense) (tensor.Tensor, error) { return tensor.SoftMaxB(d, e, d.Dims()-1) }},
+		{name: "LogSoftMaxB(0)", ok: func(s []int) bool { return len(s) >= 2 }, run2: func(d, e *tensor.Dense) (tensor.Tensor, error) { return tensor.LogSoftMaxB(d, e, 0) }},
+		{name: "LogSoftMaxB(last)", ok: func(s []int) bool { return len(s) >= 2 }, run2: func(d, e *tensor.Dense) (tensor.Tensor, error) { return tensor.LogSoftMaxB(d, e, d.Dims()-1) }},
+		{name: "ByIndicesB(0)", ok: func(s []int) bool { return len(s) >= 2 }, run2: func(d, e *tensor.Dense) (tensor.Tensor, error) {
+			g, err := tensor.ByIndices(e, idx(), 0)
+			if err != nil {
+				return nil, err
+			}
+			return tensor.ByIndicesB(d, g, idx(), 0)
+		}},
+		{name: "Materialize", ok: func(s []int) bool { return true }, run: func(d *tensor.Dense) (tensor.Tensor, error) { return tensor.Materialize(d), nil }},
+		{name: "Copy(dest C)", ok: func(s []int) bool { return true }, run: func(d *tensor.Dense) (tensor.Tensor, error) {
+			r := tensor.New(tensor.Of(d.Dtype()), tensor.WithShape(d.Shape().Clone()...))
+			return r, tensor.Copy(r, d)
+		}},
+		{name: "Copy(dest F)", ok: func(s []int) bool { return true }, run: func(d *tensor.Dense) (tensor.Tensor, error) {
+			r := tensor.New(tensor.Of(d.Dtype()), tensor.WithShape(d.Shape().Clone()...), tensor.AsFortran(nil))
+			return r, tensor.Copy(r, d)
+		}},
+		{name: "Trace", ok: func(s []int) bool { return len(s) == 2 }, run: func(d *tensor.Dense) (tensor.Tensor, error) {
+			v, err := d.Trace()
+			if err != nil {
+				return nil, err
+			}
+			return tensor.New(tensor.FromScalar(v)), nil
+		}},
+		{name: "SVD(values)", ok: func(s []int) bool { return len(s) == 2 }, run: func(d *tensor.Dense) (tensor.Tensor, error) {
+			sv, _, _, err := d.SVD(false, false)
+			return sv, err
+		}},
+		{name: "Outer(api)", ok: func(s []int) bool { return len(s) == 2 }, run2: func(d, e *tensor.Dense) (tensor.Tensor, error) {
+			a, err := d.Slice(tensor.S(0))
+			if err != nil {
+				return nil, err
+			}
+			b, err := e.Slice(nil, tensor.S(0))
+			if err != nil {
+				return nil, err
+			}
+			return tensor.Outer(a, b)
+		}},
+		{name: "RepeatReuse(dest C)", ok: func(s []int) bool { return len(s) == 2 }, run: func(d *tensor.Dense) (tensor.Tensor, error) {
+			sh := d.Shape().Clone()
+			sh[0] *= 2
+			r := tensor.New(tensor.Of(d.Dtype()), tensor.WithShape(sh...))
+			return tensor.RepeatReuse(d, r, 0, 2)
+		}},
+	}
+	for _, t := range []reflect.Type{model.TF64, model.TF32} {
+		tol := 1e-12
+		if t == model.TF32 {
+			tol = 1e-5
+		}
+		for _, shape := range [][]int{{2, 3}, {3, 3}, {3, 2}, {2, 3, 2}} {
+			n := model.Size(shape)
+			for _, o := range ops {
+				if !o.ok(shape) {
+					continue
+				}
+				vals := gen.SmallInts(t, n, c.Rng, 1, 9)
+				ref, pr := ewBuild(c, t, shape, gen.LC, vals, nil, nil)
+				if pr != "" {
+					continue
+				}
+				var want tensor.Tensor
+				var werr error
+				vals2 := gen.SmallInts(t, n, c.Rng, 1, 9)
+				ref2, pr2 := ewBuild(c, t, shape, gen.LC, vals2, nil, nil)
+				if pr2 != "" {
+					continue
+				}
+				call := func(d, e *tensor.Dense) (tensor.Tensor, error) {
+					if o.run2 != nil {
+						return o.run2(d, e)
+					}
+					return o.run(d)
+				}
+				wp, _ := core.Catch(func() { want, werr = call(ref.op.D, ref2.op.D) })
+				if wp || werr != nil {
+					continue // the operation does not serve this shape at all
+				}
+				wm, e := gen.ReadAll(want)
+				if e != nil {
+					continue
+				}
+				for _, lay := range []string{gen.LF, gen.LFconv, gen.LFT, gen.LFS} {
+					x, px := ewBuild(c, t, shape, lay, vals, nil, nil)
+					if px != "" || x.op.Layout != lay {
+						continue
+					}
+					y, py := ewBuild(c, t, shape, lay, vals2, nil, nil)
+					if py != "" || y.op.Layout != lay {
+						continue
+					}
+					x.before()
+					y.before()
+					var got tensor.Tensor
+					var gerr error
+					gp, gmsg := core.Catch(func() { got, gerr = call(x.op.D, y.op.D) })
+					x.observe()
+					y.observe()
+					key := core.Sig("other", o.name, lay, shapeStr(shape), model.Name(t))
+					caseKey := fmt.Sprintf("other/%s/%s/%s/%s", o.name, lay, shapeStr(shape), model.Name(t))
+					desc := map[string]interface{}{"operation": o.name, "layout": lay, "shape": shape, "type": model.Name(t), "values": short(vals)}
+					c.Eval(key, true)
+					if c.WantSample("other/" + o.name) {
+						c.Sample("other/"+o.name, desc)
+					}
+					if !x.untouched() || !y.untouched() {
+						c.Violation(core.Sig("other", o.name, lay, "operand-changed"), caseKey, desc, "operands untouched", fmt.Sprint(x.changed, x.metaDif, y.changed, y.metaDif))
+						continue
+					}
+					if gp || gerr != nil {
+						_ = gmsg
+						c.Refused("other:" + o.name + ":" + lay)
+						continue
+					}
+					if e := gen.ReadMatchesBy(got, wm, func(a, b interface{}) bool { return model.RelClose(a, b, tol) }); e != nil {
+						c.Violation(core.Sig("other", o.name, lay, "differs-from-row-major"), caseKey, desc, short(wm.V)+" shape "+shapeStr(wm.Shape), e.Error())
 					}
 				}
 			}
